@@ -2,7 +2,8 @@
 (* C10: the counter file as writers change it.  One state = the content of    *)
 (* the file (header length, size, allocation limit, bucket heads, records)    *)
 (* after a sequence of operations create / add (first use of a name allocates *)
-(* a record, later uses increment it) / reopen, performed by any of several   *)
+(* a record, later uses increment it) / reopen / open-and-use by a writer with  *)
+(* DIFFERENT metadata (refused: no effect), performed by any of several        *)
 (* writers (the library through one or two independent mappings, and the      *)
 (* independent implementation of the layout).  The allocator is               *)
 (* FileFormat!Place; the property is that every reachable file is             *)
@@ -47,7 +48,15 @@ Add(a, nm, k) == /\ hdrLen # 0 /\ nops < MaxOps /\ AddEff(nm, k) /\ nops' = nops
                  /\ last' = [op |-> "add", a |-> a, id |-> nm.id, nlen |-> nm.nlen, b |-> nm.b, k |-> k, m |-> 0]
 Reopen(a) == /\ hdrLen # 0 /\ nops < MaxOps /\ last.op # "reopen" /\ UNCHANGED <<file, want>> /\ nops' = nops + 1
              /\ last' = [NoOp EXCEPT !.op = "reopen", !.a = a]
+(* A writer whose metadata differs from the file's (another program that maps  *)
+(* to the same file name; m = length of ITS metadata, same or different length *)
+(* class) opens the file and then uses counter nm: the open is refused, the    *)
+(* file -- header, metadata, table, records -- stays exactly as it is and the  *)
+(* increments of that writer never reach it.  Holds for files of any size.     *)
+Alien(m, nm) == /\ hdrLen # 0 /\ nops < MaxOps /\ UNCHANGED <<file, want>> /\ nops' = nops + 1
+                /\ last' = [op |-> "alien", a |-> "alien", id |-> nm.id, nlen |-> nm.nlen, b |-> nm.b, k |-> 1, m |-> m]
 Next == \/ \E m \in MetaLens : Create(m)
+        \/ \E m \in MetaLens, nm \in Names : Alien(m, nm)
         \/ \E a \in Actors, nm \in Names, k \in Incs : Add(a, nm, k)
         \/ \E a \in Actors : Reopen(a)
 Spec == Init /\ [][Next]_vars
@@ -74,7 +83,7 @@ Exact    == hdrLen # 0 =>
     /\ \A r \in recs : r.id \in DOMAIN want /\ r.val = want[r.id]
     /\ \A x \in DOMAIN want : Cardinality({r \in recs : r.id = x}) = 1
     /\ Cardinality(Linked(AsFile)) = Cardinality(recs)                      \* every record is reachable
-Monotone == [][(hdrLen # 0 /\ last'.op # "create") => /\ limit' >= limit /\ size' >= size /\ hdrLen' = hdrLen
+Monotone == [][(hdrLen # 0 /\ last'.op # "create") => /\ limit' >= limit /\ size' >= size /\ hdrLen' = hdrLen /\ metaLen' = metaLen
                              /\ \A r \in recs : \E s \in recs' : s.off = r.off /\ s.nlen = r.nlen /\ s.id = r.id /\ s.val >= r.val]_vars
 View == <<file, nops>>
 =============================================================================
